@@ -1595,7 +1595,7 @@ func (b *Bitmap) unmarshalPilosaRoaring(data []byte) error {
 
 	// Read key count in bytes sizeof(cookie)+sizeof(flag):(sizeof(cookie)+sizeof(uint32)).
 	keyN := binary.LittleEndian.Uint32(data[3+1 : 8])
-	if uint32(len(data)) < headerBaseSize+keyN*12 {
+	if int64(len(data)) < int64(headerBaseSize)+int64(keyN)*(12+4) {
 		return fmt.Errorf("malformed bitmap, key-cardinality not provided for %d containers", int(keyN)/12)
 	}
 
@@ -1629,13 +1629,25 @@ func (b *Bitmap) unmarshalPilosaRoaring(data []byte) error {
 		}
 		switch c.typ() {
 		case containerRun:
+			if int64(offset)+runCountHeaderSize >= int64(len(data)) {
+				return fmt.Errorf("run count out of bounds: off=%d, len=%d", offset, len(data))
+			}
 			runCount := binary.LittleEndian.Uint16(data[offset : offset+runCountHeaderSize])
+			if int64(offset)+runCountHeaderSize+int64(runCount)*interval16Size > int64(len(data)) {
+				return fmt.Errorf("run container out of bounds: off=%d, runs=%d, len=%d", offset, runCount, len(data))
+			}
 			c.setRuns((*[0xFFFFFFF]interval16)(unsafe.Pointer(&data[offset+runCountHeaderSize]))[:runCount:runCount])
 			opsOffset = int(offset) + runCountHeaderSize + len(c.runs())*interval16Size
 		case containerArray:
+			if int64(offset)+int64(c.N())*2 > int64(len(data)) {
+				return fmt.Errorf("array container out of bounds: off=%d, n=%d, len=%d", offset, c.N(), len(data))
+			}
 			c.setArray((*[0xFFFFFFF]uint16)(unsafe.Pointer(&data[offset]))[:c.N():c.N()])
 			opsOffset = int(offset) + len(c.array())*2 // sizeof(uint32)
 		case containerBitmap:
+			if int64(offset)+bitmapN*8 > int64(len(data)) {
+				return fmt.Errorf("bitmap container out of bounds: off=%d, len=%d", offset, len(data))
+			}
 			c.setBitmap((*[0xFFFFFFF]uint64)(unsafe.Pointer(&data[offset]))[:bitmapN:bitmapN])
 			opsOffset = int(offset) + len(c.bitmap())*8 // sizeof(uint64)
 		}
@@ -5164,6 +5176,9 @@ func (b *Bitmap) UnmarshalBinary(data []byte) error {
 	}
 	statsHit("Bitmap/UnmarshalBinary")
 	b.opN = 0 // reset opN since we're reading new data.
+	if len(data) < 2 {
+		return errors.New("data too small")
+	}
 	fileMagic := uint32(binary.LittleEndian.Uint16(data[0:2]))
 	if fileMagic == MagicNumber { // if pilosa roaring
 		return errors.Wrap(b.unmarshalPilosaRoaring(data), "unmarshaling as pilosa roaring")
